@@ -149,6 +149,8 @@ class Session:
             return S.RowSpy(r[1], r[2], r[3], r[4], r[5], log=self.log, name=f"rowspy@{r[1]}")
         if k == "wrapspy":
             return S.WrapSpy(r[1], r[2], r[3], r[4], r[5], log=self.log, name=f"wrapspy@{r[1]}")
+        if k == "cursorspy":
+            return S.CursorSpy(r[1], r[2], r[3], r[4], log=self.log, name=f"cursorspy@{r[1]}")
         if k == "fixedspy":
             return S.FixedSpy(r[1], r[2], r[3], r[4], r[5], r[6], log=self.log, name=f"fixedspy@{r[1]}")
         raise ValueError(k)
@@ -182,6 +184,7 @@ class Session:
             if wrap.get("deco"):
                 inner = u.AttrMap(inner, None)
             self.top = u.ScrollBar(inner, thumb_char=self.thumb, trough_char=self.trough, side=self.side, width=self.bw)
+            self.side, self.bw = self.top.scrollbar_side, int(self.top.scrollbar_width)  # as reported (width < 1 is clamped)
 
     # ------------------------------------------------------------ violations
     def viol(self, sig, msg):
@@ -216,9 +219,12 @@ class Session:
             self.focus = bool(op[1])
         elif k == "bar":
             if self.kind != "S":
+                # public setters after construction; the documented clamp makes the effective width max(1, n):
+                # the oracle uses what the properties REPORT afterwards
                 self.top.scrollbar_side = op[1]
                 self.top.scrollbar_width = op[2]
-                self.side, self.bw = op[1], op[2]
+                self.side, self.bw = self.top.scrollbar_side, int(self.top.scrollbar_width)
+                self.c("ops:bar_width_setter(n<1)" if op[2] < 1 else "ops:bar_width_setter(n>=1)")
         elif k == "setfocus":
             if self.items:
                 pos = op[1] % len(self.items)
@@ -272,7 +278,11 @@ class Session:
         for op in self.case["ops"]:
             if self.nexc >= MAX_EXC:
                 break
-            if op[0] == "sweep":
+            if op[0] == "dive":  # k x 'down' (moves a cursor inside a tall focus item), then shrink the view
+                self.c("ops:dive")
+                for sub in [["key", "down"]] * op[1] + [["resize", op[2], op[3]]]:
+                    self.step(sub)
+            elif op[0] == "sweep":
                 self.c("ops:sweep")
                 for sub in self.expand_sweep(op[1]):
                     self.step(sub)
@@ -365,7 +375,9 @@ class Session:
         return res
 
     def has_edit(self):
-        return any(isinstance(x, self.u.Edit) for x in (self.items or [self.cw]))
+        from vmon.monitors.c20_spies import CursorSpy
+
+        return any(isinstance(x, (self.u.Edit, CursorSpy)) for x in (self.items or [self.cw]))
 
     def _full(self, cwid):
         mark = len(self.log)
@@ -376,6 +388,7 @@ class Session:
                 fpos = self.lb.focus_position if len(self.lb.body) else None
                 for i, wdg in enumerate(self.lb.body):
                     cv = wdg.render((cwid,), self.focus and i == fpos)
+                    cursor = cursor or cv.cursor is not None
                     rows.extend(canvas_rows(cv))
                 return rows, len(rows), cursor
             flow = self.u.FLOW in self.cw.sizing()
